@@ -3156,6 +3156,7 @@ impl<'a> Visitor<'a, '_, Error> for JSONValidator<'a> {
     // group entry. A keyless entry such as `1*2 tstr` inside a map has no
     // consumer for them: do not leak them into the next group entry.
     self.map_entry_candidates = None;
+    self.object_value = None;
     // The occurrence belongs to this entry only: it must not make the next
     // group entry optional (`{ ? g, k: int }` requires k).
     if entry.occur.is_some() {
